@@ -112,7 +112,7 @@ func (c *Ctx) ruleDispatch() {
 			} else {
 				// closure not invoked: either it is not installed (then the default must run) or an earlier exit
 				slotNil := false
-				for _, f := range s.facts {
+				for _, f := range s.factList() {
 					if f.Kind == aNN && !f.Val && f.T.K == "L" && f.T.A.K == "FA" && f.T.A.N == slotIdx {
 						slotNil = true
 					}
